@@ -27,6 +27,8 @@ from .. import tlc
 # Every dimension of every history design is then within 1000x of every dimension of the probed design.
 FACTORS = [F(1, 50), F(1, 7), F(1), F(7), F(50)]
 KINDS = ["netlist", "die", "alloc", "stog", "encode", "legal", "strop"]
+HIST_KINDS = KINDS + ["undef"]          # undef = the public call Rectangle.undefine_epsilon()
+PROBE_KINDS = KINDS + ["sliver"]
 STEPS = [F(1, 10), F(1, 3), F(7, 10), F(11, 10), F(1)]
 
 
@@ -178,6 +180,21 @@ def d_strop(rng: random.Random):
     return ["".join(rng.choice("01") if rng.random() < 0.4 else "1" for _ in range(m)) for _ in range(n)]
 
 
+def d_sliver(rng: random.Random, f: F):
+    """A hard module of two rectangles that overlap by a strip whose AREA is 3x (rejected) or 1/3 (accepted) of the area
+    tolerance this very design gives a fresh process (Netlist: distance tolerance = 1e-12 * smallest dimension, area
+    tolerance = its square root).  The verdict is decided by the tolerance in force."""
+    import math
+    u = unit(rng, f)
+    side = 2 * float(u)
+    aeps = math.sqrt(1e-12 * side)
+    area = aeps * (3.0 if rng.random() < 0.5 else 1 / 3.0)
+    delta = area / side
+    x0 = 5 * float(u)
+    rects = [[x0, x0, side, side], [x0 + side - delta, x0, side, side]]
+    return {"Modules": {"H": {"hard": True, "rectangles": rects}}, "Nets": []}
+
+
 def make_design(kind: str, seed: int, sidx: int, probe: bool = False):
     rng = random.Random(seed)
     f = FACTORS[sidx]
@@ -195,6 +212,10 @@ def make_design(kind: str, seed: int, sidx: int, probe: bool = False):
         return d_legal(rng, f)
     if kind == "strop":
         return d_strop(rng)
+    if kind == "sliver":
+        return d_sliver(rng, f)
+    if kind == "undef":
+        return None
     raise ValueError(kind)
 
 
@@ -320,7 +341,13 @@ def op_strop(rows):
     return out
 
 
-OPS = {"netlist": op_netlist, "die": op_die, "alloc": op_alloc, "stog": op_netlist, "encode": op_encode,
+def op_undef(_d):
+    from frame.geometry.geometry import Rectangle
+    Rectangle.undefine_epsilon()
+    return ["undefined"]
+
+
+OPS = {"undef": op_undef, "sliver": op_netlist, "netlist": op_netlist, "die": op_die, "alloc": op_alloc, "stog": op_netlist, "encode": op_encode,
        "legal": op_legal, "strop": op_strop}
 
 
@@ -364,12 +391,18 @@ def run(ctx: Ctx) -> int:
         tlc.model_check(ctx, "Process", f"Process_mc_{tier}", vacuity_ignore=("Emit",))
         gen = tlc.generate(ctx, "Process", f"Process_gen_{tier}")
         ctx.extra["behaviours_enumerated_by_tlc"] = len(gen)
+        behaviours = []
+        gen = [g for g in gen if not (g["probe"] == "sliver" and g["eps_owner"] != 0)]   # sliver: only with the tolerance unset
         rng.shuffle(gen)
         gen = gen[:(1500 if tier == "quick" else 20000)]
-        behaviours = []
         for g in gen:
             hist = [[h[0], h[1], rng.randrange(10 ** 6)] for h in g["hist"]]
             behaviours.append({"hist": hist, "probe": g["probe"], "pseed": rng.randrange(300)})
+        # histories that set the tolerances at another scale and then undefine them, followed by a sliver probe
+        for _ in range(120 if tier == "quick" else 1500):
+            hist = [[rng.choice(["netlist", "die", "alloc", "stog"]), rng.choice([0, 0, 1, 3, 4, 4]), rng.randrange(10 ** 6)]
+                    for _ in range(rng.randint(1, 2))] + [["undef", 2, 0]]
+            behaviours.append({"hist": hist, "probe": "sliver", "pseed": rng.randrange(300)})
         # same-subsystem histories: most leak channels are shared by operations of one kind (the tolerance registers by
         # the loaders, the diagram store by encodings, the expression-tree globals by legaliser models)
         loaders = ["netlist", "die", "alloc", "stog", "legal"]
@@ -380,7 +413,7 @@ def run(ctx: Ctx) -> int:
                 behaviours.append({"hist": hist, "probe": k, "pseed": rng.randrange(300)})
         # longer random histories than TLC enumerates
         for _ in range(300 if tier == "quick" else 4000):
-            hist = [[rng.choice(KINDS), rng.randrange(5), rng.randrange(10 ** 6)] for _ in range(rng.randint(3, 6))]
+            hist = [[rng.choice(HIST_KINDS), rng.randrange(5), rng.randrange(10 ** 6)] for _ in range(rng.randint(3, 6))]
             behaviours.append({"hist": hist, "probe": rng.choice(KINDS), "pseed": rng.randrange(300)})
     fresh_keys = sorted({(b["probe"], b["pseed"]) for b in behaviours})
     fresh_cases = [{"hist": [], "probe": k, "pseed": s} for (k, s) in fresh_keys]
@@ -419,7 +452,7 @@ def run(ctx: Ctx) -> int:
     if ctx.replay:
         return ctx.finish("model_checking", "replay of one recorded behaviour")
     ctx.extra["scale_factors"] = [str(f) for f in FACTORS]
-    ctx.extra["probe_kinds"] = KINDS
+    ctx.extra["probe_kinds"] = PROBE_KINDS
     ctx.assumptions += [
         "'within a factor of 1000' is read conservatively: every dimension of every history design is within 1000x of every "
         "dimension of the probed design (base dimensions 2..20, history factors 1/50..50)",
